@@ -152,7 +152,9 @@ def run_case(arg):
             sf = os.path.join(work, "sort.txt")
             with open(sf, "wb") as f:
                 f.write(sortf)
-            base = ["-c", comp, "-b", str(bs), "-q", "-j", str(r.choice([1, 3]))] + (["-T"] if T else []) + (["-e"] if e else []) + (["-B", str(devbs)] if devbs else [])
+            groups = [["-c", comp], ["-b", str(bs)], ["-q"], ["-j", str(r.choice([1, 3]))]] + ([["-T"]] if T else []) + ([["-e"]] if e else []) + ([["-B", str(devbs)]] if devbs else [])
+            r.shuffle(groups)      # the effect of a switch must not depend on where it stands on the command line
+            base = [x for g in groups for x in g]
             o0, o1 = os.path.join(work, "o0.sqfs"), os.path.join(work, "o1.sqfs")
             r0 = core.run_tool([B["gensquashfs"]] + base + ["-D", root, o0], timeout=300)
             r1 = core.run_tool([B["gensquashfs"]] + base + ["-D", root, "-S", sf, o1], timeout=300)
